@@ -1,38 +1,44 @@
 (* C20 -- lemmas about the loader model (C20/Loader.v). *)
 From SV Require Import Lib.Base C20.Loader.
 
-Lemma named_mono w r1 r2 u : incl r1 r2 -> named w r1 u -> named w r2 u.
+Lemma named_mono j w r1 r2 u : incl r1 r2 -> named j w r1 u -> named j w r2 u.
 Proof.
   intros Hi H. induction H as [u Hu|v u _ IH Hin].
   - apply named_root. apply Hi. exact Hu.
   - eapply named_ref; eauto.
 Qed.
 
+(* one loader step keeps the named set: what is named from the new work list
+   was named from the old one *)
+Lemma named_step j w t r seen u :
+  named j w ((r ++ refs_at j w t) ++ t :: seen) u -> named j w ((t :: r) ++ seen) u.
+Proof.
+  intros H. induction H as [x Hx|v x _ IHv Hin].
+  - apply in_app_or in Hx as [Hx|Hx].
+    + apply in_app_or in Hx as [Hx|Hx].
+      * apply named_root. simpl. right. apply in_or_app. left. exact Hx.
+      * eapply named_ref; [apply named_root; left; reflexivity|exact Hx].
+    + destruct Hx as [<-|Hx]; apply named_root; simpl; [left; reflexivity|].
+      right. apply in_or_app. right. exact Hx.
+  - eapply named_ref; eauto.
+Qed.
+
 (* everything the loader fetches is named by the roots it was given or by
    the documents already seen *)
-Lemma load_named_gen : forall fuel w todo seen u,
-  In u (load fuel w todo seen) -> named w (todo ++ seen) u.
+Lemma load_named_gen : forall fuel j w todo seen u,
+  In u (load fuel j w todo seen) -> named j w (todo ++ seen) u.
 Proof.
-  induction fuel as [|f IH]; intros w todo seen u; simpl; [intros []|].
+  induction fuel as [|f IH]; intros j w todo seen u; simpl; [intros []|].
   destruct todo as [|t r]; [intros []|].
   destruct (umem t seen) eqn:Em.
   - intros H. apply IH in H. eapply named_mono; [|exact H].
     intros x Hx. simpl. right. exact Hx.
   - intros [<-|H].
     + apply named_root. left. reflexivity.
-    + apply IH in H.
-      (* roots (r ++ refs_at w t) ++ t :: seen are all named from t :: r ++ seen *)
-      clear IH. induction H as [x Hx|v x _ IHv Hin].
-      * apply in_app_or in Hx as [Hx|Hx].
-        -- apply in_app_or in Hx as [Hx|Hx].
-           ++ apply named_root. simpl. right. apply in_or_app. left. exact Hx.
-           ++ eapply named_ref; [apply named_root; left; reflexivity|exact Hx].
-        -- destruct Hx as [<-|Hx]; apply named_root; simpl; [left; reflexivity|].
-           right. apply in_or_app. right. exact Hx.
-      * eapply named_ref; eauto.
+    + apply IH in H. apply named_step. exact H.
 Qed.
 
-Lemma load_named fuel w root u : In u (load fuel w [root] []) -> named w [root] u.
+Lemma load_named fuel j w root u : In u (load fuel j w [root] []) -> named j w [root] u.
 Proof. intros H. apply load_named_gen in H. exact H. Qed.
 
 (* namespace-awareness: an element that is neither in the XSD nor in the WSDL
@@ -53,7 +59,15 @@ Proof.
   change (N.eqb ns_xsd ns_wsdl) with false. simpl. rewrite andb_false_r. reflexivity.
 Qed.
 
-Lemma refs_app a b : refs (a ++ b) = refs a ++ refs b.
+(* an import / include without a location attribute names nothing: a namespace
+   is an identifier, not an address *)
+Lemma no_location_ref_of c : c_sloc c = None -> c_loc c = None -> ref_of c = None.
+Proof.
+  intros Hs Hl. unfold ref_of. rewrite Hs, Hl.
+  destruct (_ && _); [reflexivity|]. destruct (_ && _); reflexivity.
+Qed.
+
+Lemma refs_app j base a b : refs j base (a ++ b) = refs j base a ++ refs j base b.
 Proof.
   induction a as [|c r IH]; simpl; [reflexivity|].
   destruct (ref_of c); simpl; rewrite IH; reflexivity.
@@ -61,19 +75,44 @@ Qed.
 
 (* adding foreign-namespace look-alikes anywhere in a document does not change
    what it names *)
-Lemma refs_insert_foreign a c b :
-  fst (c_name c) <> ns_xsd -> fst (c_name c) <> ns_wsdl -> refs (a ++ c :: b) = refs (a ++ b).
+Lemma refs_insert_foreign j base a c b :
+  fst (c_name c) <> ns_xsd -> fst (c_name c) <> ns_wsdl ->
+  refs j base (a ++ c :: b) = refs j base (a ++ b).
 Proof.
   intros Hx Hw. rewrite !refs_app. simpl. rewrite (foreign_ref_of c Hx Hw). reflexivity.
 Qed.
 
-(* ... hence not what the loader fetches: two worlds whose documents name the
-   same things are loaded alike *)
-Lemma load_ext : forall fuel w1 w2 todo seen,
-  (forall u, refs_at w1 u = refs_at w2 u) -> load fuel w1 todo seen = load fuel w2 todo seen.
+(* references are resolved against the URL of the document that contains them:
+   what document [u] names depends on the joiner at base [u] only *)
+Lemma refs_join_local j1 j2 base d :
+  (forall r, j1 base r = j2 base r) -> refs j1 base d = refs j2 base d.
 Proof.
-  induction fuel as [|f IH]; intros w1 w2 todo seen H; simpl; [reflexivity|].
-  destruct todo as [|t r]; [reflexivity|].
-  destruct (umem t seen); [apply IH; exact H|].
-  rewrite (H t). f_equal. apply IH. exact H.
+  intros H. induction d as [|c r IH]; simpl; [reflexivity|].
+  destruct (ref_of c) as [[u|q]|]; simpl; rewrite ?IH, ?H; reflexivity.
 Qed.
+
+Lemma refs_at_join_local j1 j2 w u :
+  (forall r, j1 u r = j2 u r) -> refs_at j1 w u = refs_at j2 w u.
+Proof. intros H. unfold refs_at. destruct (w u); [apply refs_join_local; exact H|reflexivity]. Qed.
+
+(* What a load fetches is a function of the documents it names, and of
+   nothing else: two settings (joiner, world) that agree on what the NAMED
+   documents name are loaded alike -- whatever else the worlds contain
+   (documents of earlier loads, decoys at other locations, ...). *)
+Lemma load_local : forall fuel j1 w1 j2 w2 todo seen,
+  (forall u, named j1 w1 (todo ++ seen) u -> refs_at j1 w1 u = refs_at j2 w2 u) ->
+  load fuel j1 w1 todo seen = load fuel j2 w2 todo seen.
+Proof.
+  induction fuel as [|f IH]; intros j1 w1 j2 w2 todo seen H; simpl; [reflexivity|].
+  destruct todo as [|t r]; [reflexivity|].
+  destruct (umem t seen).
+  - apply IH. intros u Hu. apply H. eapply named_mono; [|exact Hu].
+    intros x Hx. simpl. right. exact Hx.
+  - assert (Ht : refs_at j1 w1 t = refs_at j2 w2 t).
+    { apply H. apply named_root. left. reflexivity. }
+    rewrite <- Ht. f_equal. apply IH. intros u Hu. apply H. apply named_step. exact Hu.
+Qed.
+
+Lemma load_ext fuel j w1 w2 todo seen :
+  (forall u, refs_at j w1 u = refs_at j w2 u) -> load fuel j w1 todo seen = load fuel j w2 todo seen.
+Proof. intros H. apply load_local. intros u _. apply H. Qed.
